@@ -299,6 +299,7 @@ def run(tier, replay=None):
     storm(run_, common.seed(), 30 if tier == "quick" else 300)
     run_.exhaustive = exhaustive
     run_.extra["unrealised"] = unreal
+    run_.extra["internal_steps_skipped"] = sum(r.get("skipped", 0) for r in results.values())
     run_.extra["graph_edges_covered"] = len(g.edges)
     run_.extra["schedules"] = total
     run_.rule = ("schedules = paths covering every edge of the TLC state graph of GetStream (finest-grain switches) "
